@@ -106,8 +106,10 @@ func c12Faults(c *core.Ctx, src string, report func(fault, corrupted string, int
 	// (2) fuse: remove a statement separator — a ';' or a line break between two tokens — and put one space
 	for i := 1; i < len(toks); i++ {
 		if toks[i].NL {
-			cor := src[:toks[i-1].End] + " " + src[toks[i].Off:]
-			report("join-lines", cor, startOf(i-1))
+			for _, glue := range []string{" ", " /* c */ ", "/**/", " /*\t*/"} {
+				cor := src[:toks[i-1].End] + glue + src[toks[i].Off:]
+				report("join-lines", cor, startOf(i-1))
+			}
 		}
 	}
 	// (3) truncate at every byte offset inside a string/template token, and after every token that
